@@ -17,6 +17,8 @@ func VFRun(env *vfc.Env) {
 		vfC10(env)
 	case "db.proto":
 		vfProto(env)
+	case "db.c04":
+		vfC04(env)
 	case "db.c13":
 		vfHistories(env, "c13", nil)
 	case "db.gc":
